@@ -57,3 +57,12 @@ bool use_ext(const unsigned char *p, unsigned char n)
   (void)premature_eol;
   return handle_ext(0xC8, &o, &p, &n) && o;
 }
+
+/* R-C09-1 width: a getc result kept in a char */
+bool skip_header(FILE *f)
+{
+  char c;
+  if ((c = getc(f)) == EOF)		/* BAD: 0xFF and EOF coincide */
+    return premature_eof(f);
+  return c == 0x0D;
+}
